@@ -1528,6 +1528,8 @@ class Exec:
                     p.events.append(("narrowing", I.id, w, repr(self.subst(p, a)), bool(getattr(p, "cut", False))))
                     p.mods[(w, repr(self.subst(p, a)))] = self.subst(p, a)
                     p.env[k] = Lf.s(("mod", w, repr(self.subst(p, a))))
+            elif op == "trunc" and self.subst(p, a).const() is not None:
+                p.env[k] = Lf.c(self.subst(p, a).const() & ((1 << w) - 1))       # a concrete value is reduced modulo 2^w
             else:
                 p.env[k] = a
             return
